@@ -60,8 +60,8 @@ __CPROVER_requires(IORA_TRUE && __CPROVER_is_fresh(self, sizeof(*self)))
 __CPROVER_requires(len <= ((size_t)1 << 40) && G_arrived <= ((size_t)1 << 61) && self->_maxFrameSize <= ((size_t)1 << 50))
 /* monitor invariant of the session buffer: it holds exactly the received-but-unparsed bytes */
 __CPROVER_requires(self->has_gs ==> (self->gs.buffer.lo == G_next && self->gs.buffer.hi == G_arrived && G_next <= G_arrived))
-__CPROVER_requires(G_close_calls == 0)
-__CPROVER_assigns(self->has_gs, self->gs, G_next, G_arrived, G_close_calls, G_close_code)
+__CPROVER_requires(G_close_calls == 0 && !G_hf_erased)
+__CPROVER_assigns(self->has_gs, self->gs, G_next, G_arrived, G_close_calls, G_close_code, G_hf_erased)
 /* SEG4 the invariant is re-established: no byte lost, duplicated or reordered between socket and frame parser, whatever the cut */
 __CPROVER_ensures(self->has_gs ==> (self->gs.buffer.lo == G_next && self->gs.buffer.hi == G_arrived && G_next <= G_arrived))
 /* SEG5 an unknown session consumes nothing */
@@ -69,6 +69,10 @@ __CPROVER_ensures(!__CPROVER_old(self->has_gs) ==> (G_next == __CPROVER_old(G_ne
 /* BND "cannot buffer without bound": an open session never keeps more unparsed bytes from this call's input than one maximal frame
  * (configured maximum + 14 header bytes); a header declaring more (or a control frame that can never complete) must end the session */
 __CPROVER_ensures(self->has_gs ==> (__CPROVER_old(G_arrived) + len) - G_next <= self->_maxFrameSize + 14 || (__CPROVER_old(G_arrived) + len) < G_next)
+/* ACC the bound never rejects what can still complete into an acceptable frame: a remainder of at most one maximal frame (payload limit + the
+ * 14-byte maximum header: 2 + 8-byte length + 4-byte mask key) keeps the session open and sends no close - whatever the segmentation */
+__CPROVER_ensures((__CPROVER_old(self->has_gs) && !G_hf_erased && (__CPROVER_old(G_arrived) + len) >= G_next
+                   && (__CPROVER_old(G_arrived) + len) - G_next <= self->_maxFrameSize + 14) ==> (self->has_gs && G_close_calls == 0))
 ;
 void h_sud(void) { WsServer *s; SessionId sid; const uint8_t *d; size_t n; WsServer_onUpgradedData(s, sid, d, n); IORA_CANARY("h_sud: returns"); }
 
